@@ -123,7 +123,13 @@ class StmtMixin:
       ys = self.env['yielded']
       x = self.coerce(self.eval(st.value.value), ys.sort.elem)
       n = ys.sort.len(ys.t)
-      self.env['yielded'] = V(ys.sort, ys.sort.mk(z3.Store(ys.sort.arr(ys.t), n, x.t), n + 1))
+      newarr = z3.Store(ys.sort.arr(ys.t), n, x.t)
+      self.env['yielded'] = V(ys.sort, ys.sort.mk(newarr, n + 1))
+      if getattr(self.theory, 'append_frame_trigger', False):
+        # redundant consequence of the array theory, triggered on the OLD list's elements (as for list.append)
+        p_ = z3.FreshConst(z3.IntSort(), 'p')
+        self.assume(z3.ForAll([p_], z3.Implies(z3.And(0 <= p_, p_ < n), z3.Select(newarr, p_) == z3.Select(ys.sort.arr(ys.t), p_)),
+                              patterns=[z3.Select(ys.sort.arr(ys.t), p_)]))
       return
     self.eval(st.value)
 
